@@ -46,7 +46,7 @@ OBLIGATIONS = {"intersect": 100, "intersect:partial-left": 5,
                "intersect:reused-object-other-set": 30, "intersect:split-grid": 50,
                "intersect:target-dtype": 30, "intersect:same-shape-shifted": 10,
                "voronoi:near-tie": 5, "voronoi:mirror-pair-decimal": 3,
-               "intersect:target-is-clipped-grid": 10, "intersect:sum-of-catchments": 10,
+               "intersect:target-is-clipped-grid": 10, "intersect:sum-of-catchments": 10, "intersect:ratio-near-a-whole-number": 20, "intersect:after-delineate-boundary": 20, "intersect:sum-of-catchments-filled": 10,
                "voronoi:catchment-with-delineation-history": 5}
 
 
@@ -158,10 +158,26 @@ def run_intersect_case(ctx, case):
                     cat.intersect(far, filled=fl_)
             except Exception:
                 ctx.tag("intersect:after-a-refused-call")
+    # the boundary of the catchment was drawn first (a plotting step): the areas are
+    # what they were
+    if (len(cells) + 2 * coarse["nrows"]) % 3 == 0:
+        try:
+            with warnings.catch_warnings():
+                warnings.simplefilter("ignore")
+                cat.delineate_boundary()
+            ctx.tag("intersect:after-delineate-boundary")
+            if set(filled_cells) != set(cells):
+                ctx.tag("intersect:after-delineate-boundary-with-holes")
+        except Exception:
+            ctx.extra["delineate_boundary-refused"] += 1
     # the same catchment object answers for both cell sets, in any order of asking
     seq = [first, not first, first] if case.get("reuse", True) else [first]
     if case.get("via_sum") and len(cells) >= 2:
-        seq = [False, False]      # (the filled area of a sum is not defined by the API)
+        # the area of a sum is the union of the (filled) areas of its terms, and filling
+        # cannot lose cells: asked for the filled area, the sum answers with that union
+        seq = [False, True, False]
+        filled_cells = list(cells)
+        ctx.tag("intersect:sum-of-catchments-filled")
     if len(seq) > 1 and set(filled_cells) != set(cells):
         ctx.tag("intersect:reused-object-other-set")
     for i, use_filled in enumerate(seq):
@@ -546,7 +562,12 @@ def run(ctx):
                 int(c) for c in rng.choice(n, size=min(n, 2), replace=False)))
         if not delineated:
             hist = None
-        ratio = [1.0, 2.0, 3.0, 4.0, 2.5, 1.5][int(rng.integers(0, 6))]
+        # (cell-size ratios: whole numbers, simple fractions, and ratios a few parts per
+        # million away from a whole number - grids of "0.05 degrees" that are 0.0500001)
+        ratio = [1.0, 2.0, 3.0, 4.0, 2.5, 1.5, 2.00001, 3.00002, 1.999985, 1.000004,
+                 4.0 * (1 - 3e-6), 2.0 * (1 + 1e-6), 1.37][int(rng.integers(0, 13))]
+        if abs(ratio - round(ratio)) > 0 and abs(ratio - round(ratio)) < 1e-3:
+            ctx.tag("intersect:ratio-near-a-whole-number")
         ccsz = fcsz * ratio
         mode = it % 6
         ext_x, ext_y = nc * fcsz, nr * fcsz
